@@ -100,6 +100,21 @@ func buildSequence(c *mon.Ctx, sc seqCase) []seqItem {
 		}
 		items = append(items, it)
 	}
+	// every other sequence: the payloads are consecutive sub-slices of ONE buffer, the way a sender cuts a
+	// large envelope into segment-sized parts — each payload slice has spare capacity that is the next payload
+	if sc.Index%2 == 0 {
+		total := 0
+		for _, it := range items {
+			total += len(it.p)
+		}
+		big := make([]byte, 0, total+16)
+		for i := range items {
+			off := len(big)
+			big = append(big, items[i].p...)
+			items[i].p = big[off:len(big)]
+		}
+		big = append(big, "canary-after-last"[:16]...)
+	}
 	return items
 }
 
@@ -125,9 +140,11 @@ func (ck checker) runSequence(sc seqCase) {
 	snaps := make([][]byte, len(items))
 	inputs := make([][]byte, len(items))
 	for i := range items {
+		inputs[i] = append([]byte(nil), items[i].p...)
+	}
+	for i := range items {
 		it := &items[i]
 		outs[i] = &bytes.Buffer{}
-		inputs[i] = append([]byte(nil), it.p...)
 		seg := &segment.Segment{Header: &segment.Header{IsSelfContained: it.flag}, Payload: &segment.Payload{UncompressedData: it.p}}
 		var err error
 		pan, pv := mon.Guard(func() { err = enc.EncodeSegment(seg, outs[i]) })
@@ -152,8 +169,8 @@ func (ck checker) runSequence(sc seqCase) {
 				return
 			}
 		}
-		for j := 0; j <= i; j++ {
-			if !bytes.Equal(outs[j].Bytes(), snaps[j]) {
+		for j := range items { // later payloads too: they are the spare capacity of the earlier ones
+			if j <= i && !bytes.Equal(outs[j].Bytes(), snaps[j]) {
 				ck.seqViol("segment/"+sc.Format+"/encode/output-changed-by-later-encode", sc,
 					fmt.Sprintf("bytes emitted for segment %d changed after the same codec encoded segment %d", j, i), j, items[j], outs[j].Bytes())
 				return
